@@ -114,8 +114,9 @@ BATTERY_SCRIPTS = [
 ENTRY = ['compile_script', 'from_src', 'assemble', 'parse_comptime']
 RUN_SCRIPTS = ['msg', 'msg2', 'ct', 'inv0', 'inv1', 'inv2', 'xfer', 'sign',
                'fail', 'cachekey']
-NESTS = ['top', 'if', 'try', 'loop', 'call', 'eval', 'if_try_call']
-DEPTH = {'top': 0, 'if': 1, 'try': 1, 'loop': 1, 'call': 1, 'eval': 1, 'if_try_call': 3}
+NESTS = ['top', 'if', 'try', 'loop', 'call', 'eval', 'if_call', 'if_try_call']
+DEPTH = {'top': 0, 'if': 1, 'try': 1, 'loop': 1, 'call': 1, 'eval': 1, 'if_call': 2,
+         'if_try_call': 3}
 BAD_CALLS = ['add_plugin_scope_int', 'add_plugin_not_callable', 'remove_plugin_scope_int',
              'reset_plugins_none', 'add_contract_str_id', 'remove_contract_str_id',
              'add_iface_not_protocol', 'remove_iface_not_protocol', 'add_alias_int',
@@ -413,6 +414,8 @@ def _script_src(name, nest):
         return 'def 3 { %s } call d3' % body
     if nest == 'eval':
         return 'push x%s eval' % T.compile_script(body).hex()
+    if nest == 'if_call':
+        return 'def 3 { %s } true if { call d3 }' % body
     if nest == 'if_try_call':
         return 'def 3 { %s } true if { try { call d3 } except { true pop0 } }' % body
     raise ValueError(nest)
@@ -529,6 +532,27 @@ def probe_registry(w):
             expr = ['exc', 'ScriptExecutionError']
         if r != expr:
             bad.append(['contracts/invoke', [cid.hex(), r], expr])
+    # compiling is also an execution: comptime blocks (`~! { ... }`) run at compile
+    # time with the registries of that moment, so the bytes a source compiles to
+    # depend on the *current* registry contents -- for the same text, every time
+    for cid in sorted(IDS.values()):
+        _pin()
+        w.log = []
+        src = 'push ~! { push d0 push x%s invoke }' % cid.hex()
+        r = _outcome(lambda: T.compile_script(src).hex())
+        kind = m.contracts.get(cid)
+        if kind is not None and 'CanBeInvoked' in SATISFIES[kind]:
+            expr = ['ok', T.compile_script('push x' + kind.encode().hex()).hex()]
+        else:
+            expr = ['exc', 'ScriptExecutionError']
+        if r != expr:
+            bad.append(['contracts/comptime_invoke', [cid.hex(), r], expr])
+    _pin()
+    w.log = []
+    r = _outcome(lambda: T.compile_script('push ~! { get_message x00 }').hex())
+    obs = sorted(e[1] for e in w.log if e[0] == 'P' and e[2] == 'se')
+    if obs != exp:
+        bad.append(['plugins/comptime_signature_extensions', [obs, r[0]], exp])
     # transfer-checking contract at ID1
     _pin()
     w.log = []
